@@ -324,10 +324,15 @@ SendRespTrailers ==
   /\ UNCHANGED <<nextSid, nOther, nGoAway, srvLast>>
 
 SendRespRst ==
-  /\ \E s \in SidSet, code \in {"refused", "cancel"} :
-       /\ ServerMay(s) /\ est[s].pst \in {0, 1} /\ Room(1)
+  /\ \E s \in SidSet, code \in {"refused", "cancel", "no"} :
+       /\ ServerMay(s) /\ Room(1)
+       \* a refusal comes instead of a response; after the end of its response a server may still
+       \* reset the stream (NO_ERROR: "stop sending", RFC 9113 8.1) - once here
+       /\ CASE code = "refused" -> est[s].pst = 0
+            [] code = "cancel"  -> est[s].pst \in {0, 1}
+            [] OTHER            -> est[s].pst = 2
        /\ Put("resp", <<Fr("RST", "resp", s, "", "", FALSE, FALSE, 0, 0, code, 0, <<>>, 0, 2, "")>>)
-       /\ est' = [est EXCEPT ![s].pst = 2]
+       /\ est' = [est EXCEPT ![s].pst = IF code = "no" THEN 3 ELSE 2]
   /\ UNCHANGED <<nextSid, hsq, nOther, nGoAway, srvLast>>
 
 SendGoAway ==
@@ -424,6 +429,15 @@ Agrees == /\ Range(m.collected) = Traces(m.hist, side)
 
 \* the environment generates well-formed traffic only (so Agrees is about the right domain)
 EnvWellFormed == WellFormed(m.hist)
+
+\* reassembly: the frames handled in a direction are exactly the frames of that direction whose last
+\* byte has gone through the wrapper - none lost, none twice, in order - whatever the chunking.
+\* (Stated on the wire and the byte position alone, independently of the frame tracer: Agrees by
+\* itself would be satisfied by a tracer that stops looking.)
+RECURSIVE Whole(_, _)
+Whole(fs, p) == IF fs = <<>> \/ p < Units(Head(fs)) THEN 0 ELSE 1 + Whole(Tail(fs), p - Units(Head(fs)))
+Reassembly == \A d \in Dirs :
+                 SelectSeq(m.hist, LAMBDA f : IsFrame(f) /\ f.d = d) = SubSeq(wire[d], 1, Whole(wire[d], pos[d]))
 
 \* on well-formed traffic the tracer never gives up, and its HPACK decoders see every block in order
 NeverBroken == \A d \in Dirs : ~ft[d].broken
